@@ -15,7 +15,8 @@
      other than the holder of the selected peer's private key session keys that the originator accepts"
                                             → accept_requires, accepted_keys_need_selected_key, wrong_identifier_rejected,
                                               no_outstanding_request_rejected, bad_auth_rejected, replay_rejected,
-                                              duplicate_rejected, late_answer_rejected, every_hop_keyed_with_selected,
+                                              duplicate_rejected, late_answer_rejected, resend_rejects_previous_answer,
+                                              every_hop_keyed_with_selected,
                                               no_outsider_holds_hop_keys (all histories)
     "never changes an already established hop" → step_hops_append_only, hops_append_only, answer_touches_one_circuit
                                               (originator side); joined_ids_disjoint, joined_keys_stable,
@@ -261,6 +262,47 @@ theorem late_answer_rejected (C : Crypto Tag Sess Blob) (L : Laws C) (n : Node S
 
 example : ((run Free exNode [.retryTimeout 77 ⟨13, 557, none⟩, exAnswer]).circuits 77).map
     (fun c => (c.hops.length, c.unverified)) = some (0, some (3, 13)) := by decide
+
+/-- re-targeted attempt (public API, the "reuse a partial circuit" path): after the application re-sends the pending
+    create / extend — to the same or to another candidate — with a fresh ephemeral, an answer made for the ephemeral
+    `x` of the PREVIOUS attempt changes nothing, even if the identifier were carried over -/
+theorem resend_rejects_previous_answer (C : Crypto Tag Sess Blob) (L : Laws C) (n : Node Sess) (cid ident : Nat)
+    (w : Wire) (cands : Blob) (env env' : Env) (c : Circ Sess) (x : Key) (targets : List Key) (tries : Int)
+    (h0 : n.circuits cid = some c) (hfresh : env.x ≠ x) :
+    (let n' := (step C n (.sendExtend cid targets tries env)).1
+     step C n' (.extended cid ident (some w) (C.mac [dh x w.pt] w) cands env') = (n', [])) ∧
+    (let n' := (step C n (.sendInitialCreate cid targets tries env)).1
+     step C n' (.extended cid ident (some w) (C.mac [dh x w.pt] w) cands env') = (n', [])) := by
+  have key : ∀ res : Option (Circ Sess) × List (Out Tag Blob), Resent c env res.1 →
+      step C (n.setCirc cid res).1 (.extended cid ident (some w) (C.mac [dh x w.pt] w) cands env')
+        = ((n.setCirc cid res).1, []) := by
+    intro res hres
+    simp only [step, onExtended]
+    apply origin_reject
+    have hc : (n.setCirc cid res).1.circuits cid = res.1 := by simp [setCirc_circ]
+    rcases hres with h | ⟨c1, h1, _, _, ⟨_, hr1⟩ | ⟨t, r1, hu1, _, _⟩⟩
+    · left; rw [hc]; exact h
+    · right; exact ⟨c1, by rw [hc]; exact h1, Or.inl hr1⟩
+    · right
+      refine ⟨c1, by rw [hc]; exact h1, Or.inr (Or.inr (Or.inr ⟨t, env.x, w, hu1, rfl, ?_⟩))⟩
+      exact mac_other_ephemeral C L env.x x w w (Ne.symm hfresh)
+  constructor
+  · intro n'
+    have : n' = (n.setCirc cid (sendExtend (Tag := Tag) (Blob := Blob) n.me cid c targets tries env)).1 := by
+      simp only [n', step, h0]
+    rw [this]
+    exact key _ (sendExtend_resent _ _ _ _ _ _)
+  · intro n'
+    have : n' = (n.setCirc cid (sendInitialCreate (Tag := Tag) (Blob := Blob) n.me cid c targets tries env)).1 := by
+      simp only [n', step, h0]
+    rw [this]
+    exact key _ (sendInitialCreate_resent _ _ _ _ _ _)
+
+/-- non-vacuity: hop 2 answered slowly; the application re-targets the first hop to peer 3 (fresh ephemeral 14); the
+    late answer of peer 2 — even with the new identifier 558 — is not accepted -/
+example : ((run Free exNode [.sendInitialCreate 77 [3] 2 ⟨14, 558, none⟩,
+      .created 77 558 (some ⟨20, 0⟩) (.mac [dh 10 20] ⟨20, 0⟩) (.junk 0) ⟨15, 559, none⟩]).circuits 77).map
+    (fun c => (c.hops.length, c.unverified)) = some (0, some (3, 14)) := by decide
 
 /-! ## 4. every history: hops are keyed with the selected peer's static key -/
 
